@@ -44,7 +44,35 @@ fn edits_of(tab: &[&'static str], e: &Value) -> (Vec<String>, Vec<f64>) {
     (edits, (0..n).map(|k| 1.0 + k as f64).collect())
 }
 
+/// kind "spell": the chain of edits as the library runs it - `SpellingCorruption` in artificial mode without a character
+/// file (deletions and swaps of letters only) on a one-word text; `pone`: character edit probability 1 (as many edits as
+/// the word has characters), otherwise 0.5 (one edit up to that many)
+fn exec_spell(case: &Value) -> Vec<Value> {
+    use text_utils::data::preprocessing::{preprocessing, Part, PreprocessingFnConfig, SpellingCorruptionMode};
+    use text_utils::data::{TextDataInfo, TrainData};
+    let tab = symtab(get_str(case, "alpha"));
+    let word = word_of(&tab, &case["w"]);
+    let pone = get_bool(case, "pone");
+    let full = get_bool(case, "full");
+    let seed = case.get("seed").and_then(|x| x.as_u64()).unwrap_or(0);
+    let r = guard(|| {
+        let f = preprocessing(PreprocessingFnConfig::SpellingCorruption(Part::Input, 1.0, full,
+            SpellingCorruptionMode::Artificial(if pone { 1.0 } else { 0.5 }, 1.0, None)));
+        f(TrainData::new(word.clone(), None), TextDataInfo { seed, ..Default::default() }).map(|(d, _)| d.verif_input().to_string())
+    });
+    let (st, out) = match r {
+        Ok(Ok(o)) => ("ok".to_string(), o),
+        Ok(Err(e)) => (format!("err:spelling:{e}"), String::new()),
+        Err(m) => (format!("panic:spelling:{m}"), String::new()),
+    };
+    vec![json!({"st": st, "kind": "spell", "w": ids_of(&tab, &word, true), "out": ids_of(&tab, &out, true), "pone": pone, "full": full,
+                "tb": {"ins": [], "rep": []}, "seed": seed, "case": case})]
+}
+
 pub fn exec(case: &Value) -> Vec<Value> {
+    if get_str(case, "kind") == "spell" {
+        return exec_spell(case);
+    }
     let alpha = get_str(case, "alpha");
     let tab = symtab(alpha);
     let g = get_bool(case, "g");
@@ -129,7 +157,13 @@ pub fn exec(case: &Value) -> Vec<Value> {
 pub fn gen(seed: u64, n: usize) -> Vec<Value> {
     let mut rng = ChaCha8Rng::seed_from_u64(seed);
     (0..n)
-        .map(|_| {
+        .map(|i| {
+            if i % 5 == 4 {
+                // the library's own chain: a word of 1-6 letters with repeats
+                let w: Vec<u64> = (0..rng.random_range(1..=6)).map(|_| rng.random_range(1..=3)).collect();
+                return json!({"kind": "spell", "w": w, "alpha": "ascii", "del": [1, 2, 3], "pone": rng.random_bool(0.5), "full": rng.random_bool(0.5),
+                              "seed": rng.random::<u32>()});
+            }
             let len = rng.random_range(0..=7usize);
             let mut syms: Vec<u64> = (1..=10).collect();
             syms.shuffle(&mut rng);
